@@ -192,3 +192,304 @@ func (cx *Ctx) nameDelimitedRule(r *Report, m, rule string) int {
 	}
 	return n
 }
+
+// scanPrefixClosedRule: a key constructor that is used as the prefix of a store iteration
+// and ends in a variable-length component, while a longer constructor of the same module
+// continues after that component, is an open-ended scan prefix: the scan for "farm-1"
+// also walks the keys of "farm-10" … "farm-19". Such a prefix must end in a constant
+// delimiter (or a fixed-width component). Constructors whose trailing component is
+// fixed-width in practice (addresses, hashes) are listed as reviewed exceptions.
+var scanPrefixReviewed = map[string]string{
+	"farm/types.PrefixFarmInfo":                "the trailing component is a bech32 account address: equal length for equal address width, and the checksum makes one valid address a prefix of another only by a 2^-30 accident",
+	"service/types.GetEarnedFeesSubspace":      "the trailing component is the raw bytes of an account address (fixed width per address kind)",
+	"service/types.GetOwnerEarnedFeesSubspace": "the trailing component is the raw bytes of an account address (fixed width per address kind)",
+	"service/types.GetOwnerProvidersSubspace":  "the trailing component is the raw bytes of an account address (fixed width per address kind)",
+}
+
+func (cx *Ctx) scanPrefixClosedRule(r *Report, mods []string, rule string) int {
+	layouts := cx.keyLayouts()
+	// constructors that feed an iterator
+	usedAsScan := map[*ssa.Function]string{}
+	for _, f := range cx.P.AllFuncs {
+		if f.Blocks == nil || !isIrismodFunc(f) || !isConsensusCode(cx, f) {
+			continue
+		}
+		for _, p := range cx.primsOf(f) {
+			if p.Kind != "store.iter" && p.Kind != "store.riter" {
+				continue
+			}
+			c := p.Site.Common()
+			var key ssa.Value
+			if c.IsInvoke() {
+				if len(c.Args) > 0 {
+					key = c.Args[0]
+				}
+			} else if len(c.Args) > 1 {
+				key = c.Args[1]
+			}
+			var walk func(v ssa.Value, d int)
+			walk = func(v ssa.Value, d int) {
+				if v == nil || d > 6 {
+					return
+				}
+				switch x := v.(type) {
+				case *ssa.Call:
+					if g := x.Common().StaticCallee(); g != nil && !x.Common().IsInvoke() {
+						if _, ok := usedAsScan[g]; !ok {
+							usedAsScan[g] = cx.P.Pos(p.Site.Pos())
+						}
+					}
+				case *ssa.Phi:
+					for _, e := range x.Edges {
+						walk(e, d+1)
+					}
+				case *ssa.Convert:
+					walk(x.X, d+1)
+				case *ssa.ChangeType:
+					walk(x.X, d+1)
+				}
+			}
+			walk(key, 0)
+		}
+	}
+	in := func(m string) bool {
+		for _, x := range mods {
+			if x == m {
+				return true
+			}
+		}
+		return false
+	}
+	n := 0
+	for _, P := range layouts {
+		m := moduleOf(funcPkgPath(P.fn))
+		at, scan := usedAsScan[P.fn]
+		if !in(m) || !scan || len(P.comps) < 2 || P.comps[len(P.comps)-1].kind != "V" {
+			continue
+		}
+		var longer string
+		for _, A := range layouts {
+			if A.fn == P.fn || moduleOf(funcPkgPath(A.fn)) != m || len(A.comps) <= len(P.comps) {
+				continue
+			}
+			same := true
+			for i := range P.comps {
+				if A.comps[i].kind != P.comps[i].kind || (P.comps[i].kind == "C" && A.comps[i].desc != P.comps[i].desc) {
+					same = false
+				}
+			}
+			if same && longer == "" {
+				longer = shortFn(A.fn)
+			}
+		}
+		if longer == "" {
+			continue
+		}
+		n++
+		key := shortFn(P.fn) + "|" + P.comps[len(P.comps)-1].desc
+		var ss []string
+		for _, x := range P.comps {
+			ss = append(ss, x.kind+":"+trunc(x.desc, 30))
+		}
+		if why, ok := scanPrefixReviewed[shortFn(P.fn)]; ok {
+			r.ok(rule, key, at, "open-ended scan prefix ("+strings.Join(ss, " | ")+"), reviewed: "+why)
+			continue
+		}
+		r.violate(rule, key, cx.P.Pos(P.fn.Pos()), "the scan prefix built by "+shortFn(P.fn)+" ("+strings.Join(ss, " | ")+", iterated at "+at+") ends in the variable-length "+P.comps[len(P.comps)-1].desc+" while "+longer+" continues after it: a scan for one value also walks the keys of every value it is a prefix of (\"farm-1\" and \"farm-10\"), so records of another object are read, paid out or rewritten")
+	}
+	return n
+}
+
+// keyEncodingUniformRule: the key constructors of a module encode the string ids they are
+// given in one way. A constructor that normalises its argument (trims, folds case, …)
+// next to one that takes it verbatim makes two prefixes disagree on WHICH object a given
+// id names: the balance of "T " is found under "T" while its supply is looked up under
+// "T " - and paired records drift apart.
+func (cx *Ctx) keyEncodingUniformRule(r *Report, mods []string, rule string) int {
+	n := 0
+	for _, m := range mods {
+		type use struct {
+			fn    *ssa.Function
+			param string
+			xf    string
+		}
+		var uses []use
+		for _, f := range cx.P.AllFuncs {
+			if f.Blocks == nil || !isIrismodFunc(f) || f.Parent() != nil || f.Signature.Recv() != nil || moduleOf(funcPkgPath(f)) != m {
+				continue
+			}
+			p := funcPkgPath(f)
+			if !strings.Contains(p, "/types") || strings.Contains(p, "migrations") {
+				continue
+			}
+			res := f.Signature.Results()
+			if res.Len() != 1 {
+				continue
+			}
+			sl, ok := res.At(0).Type().Underlying().(*types.Slice)
+			if !ok {
+				continue
+			}
+			if b, ok := sl.Elem().Underlying().(*types.Basic); !ok || b.Kind() != types.Byte {
+				continue
+			}
+			nm := f.Name()
+			if !(strings.Contains(nm, "Key") || strings.Contains(nm, "Subspace") || strings.Contains(nm, "Prefix")) {
+				continue
+			}
+			for _, prm := range f.Params {
+				bt, ok := prm.Type().Underlying().(*types.Basic)
+				if !ok || bt.Kind() != types.String {
+					continue
+				}
+				xf := map[string]bool{}
+				seen := map[ssa.Value]bool{}
+				var fwd func(v ssa.Value, d int)
+				fwd = func(v ssa.Value, d int) {
+					if d > 8 || seen[v] || v.Referrers() == nil {
+						return
+					}
+					seen[v] = true
+					for _, ref := range *v.Referrers() {
+						switch x := ref.(type) {
+						case *ssa.Phi:
+							fwd(x, d+1)
+						case *ssa.Store:
+							if a, ok := x.Addr.(*ssa.Alloc); ok && x.Val == v {
+								for _, r2 := range *a.Referrers() {
+									if ld, ok := r2.(*ssa.UnOp); ok {
+										fwd(ld, d+1)
+									}
+								}
+							}
+						case *ssa.Call:
+							if b, isB := x.Common().Value.(*ssa.Builtin); isB {
+								_ = b
+								continue
+							}
+							if x.Type() != nil {
+								if rb, ok := x.Type().Underlying().(*types.Basic); ok && rb.Kind() == types.String {
+									name := callName(x)
+									if g := x.Common().StaticCallee(); g != nil && g.Blocks != nil && isIrismodFunc(g) {
+										// a local helper: named by what it calls (normalizeID = strings.TrimSpace)
+										for _, gb := range g.Blocks {
+											for _, gi := range gb.Instrs {
+												if gc, ok := gi.(*ssa.Call); ok {
+													if _, isB := gc.Common().Value.(*ssa.Builtin); !isB {
+														name = callName(gc)
+													}
+												}
+											}
+										}
+									}
+									xf[name] = true
+									fwd(x, d+1)
+								}
+							}
+						}
+					}
+				}
+				fwd(prm, 0)
+				uses = append(uses, use{f, prm.Name(), strings.Join(sortedKeys(xf), "+")})
+			}
+		}
+		if len(uses) == 0 {
+			continue
+		}
+		by := map[string][]string{}
+		for _, u := range uses {
+			by[u.xf] = append(by[u.xf], shortFn(u.fn)+"("+u.param+")")
+		}
+		n++
+		if len(by) == 1 {
+			r.ok(rule, m, "", fmt.Sprintf("%d string parameters of the module's key constructors are all encoded the same way (%q)", len(uses), sortedKeys(by)[0]))
+			continue
+		}
+		var parts []string
+		for _, k := range sortedKeys(by) {
+			sort.Strings(by[k])
+			kk := k
+			if kk == "" {
+				kk = "verbatim"
+			}
+			parts = append(parts, kk+": "+strings.Join(by[k], ", "))
+		}
+		r.violate(rule, m, cx.P.Pos(uses[0].fn.Pos()), "the key constructors of module "+m+" do not encode their string ids in one way ("+strings.Join(parts, " | ")+"): an id that the one normalises and the other takes verbatim names different objects under the two prefixes, so records that belong together (a balance and its supply, a record and its index entry) are read and written under different ids")
+	}
+	return n
+}
+
+// exactNameLookupRule: a keeper function that looks a record up BY A NAME it is given (a
+// string parameter) reaches the store with a key made of that very string. A lookup that
+// first parses the name and rebuilds a key from the parsed value ("abc-1" -> 1 -> "lpt-1")
+// answers for a different name than the one asked about; its callers - who go on using
+// the name they passed (its supply, its coins) - then act on two different objects.
+func (cx *Ctx) exactNameLookupRule(r *Report, mod string, prefixes []string, rule string) int {
+	n := 0
+	for _, G := range cx.P.AllFuncs {
+		if G.Blocks == nil || !isIrismodFunc(G) || G.Parent() != nil || moduleOf(funcPkgPath(G)) != mod || !isConsensusCode(cx, G) || !strings.Contains(funcPkgPath(G), "/keeper") {
+			continue
+		}
+		var sp *ssa.Parameter
+		ns := 0
+		for _, p := range G.Params {
+			if bt, ok := p.Type().Underlying().(*types.Basic); ok && bt.Kind() == types.String {
+				sp = p
+				ns++
+			}
+		}
+		if ns != 1 {
+			continue
+		}
+		// store reads under the prefixes in G and its static callees (depth ≤ 3)
+		type site struct {
+			ci    ssa.CallInstruction
+			stack []*ssa.Call
+		}
+		var sites []site
+		var dfs func(f *ssa.Function, stack []*ssa.Call, d int)
+		dfs = func(f *ssa.Function, stack []*ssa.Call, d int) {
+			for _, b := range f.Blocks {
+				for _, ins := range b.Instrs {
+					ci, ok := ins.(ssa.CallInstruction)
+					if !ok {
+						continue
+					}
+					if kd := cx.classifyCall(ci); kd == "store.get" || kd == "store.has" {
+						for _, px := range cx.storeKeyPrefix(ci, kd) {
+							if contains(prefixes, px) {
+								sites = append(sites, site{ci, append([]*ssa.Call{}, stack...)})
+							}
+						}
+						continue
+					}
+					c, isCall := ins.(*ssa.Call)
+					if !isCall || d >= 3 || c.Common().IsInvoke() {
+						continue
+					}
+					if g := c.Common().StaticCallee(); g != nil && g.Blocks != nil && isIrismodFunc(g) && moduleOf(funcPkgPath(g)) == mod && strings.Contains(funcPkgPath(g), "/keeper") {
+						dfs(g, append(append([]*ssa.Call{}, stack...), c), d+1)
+					}
+				}
+			}
+		}
+		dfs(G, nil, 0)
+		for _, st := range sites {
+			key := st.ci.Common().Args[0]
+			if !st.ci.Common().IsInvoke() && len(st.ci.Common().Args) > 1 {
+				key = st.ci.Common().Args[1]
+			}
+			isP := func(v ssa.Value, _ []*ssa.Call) bool { return v == ssa.Value(sp) }
+			full := cx.newSlicer(isP, false)
+			if !full.derives(key, st.stack, -1) {
+				continue // this read is not keyed by the name
+			}
+			exact := cx.newSlicer(isP, true)
+			exact.structural = true
+			ok := exact.derives(key, st.stack, -1)
+			n++
+			r.check(ok, rule, shortFn(G)+"|"+sp.Name(), cx.P.Pos(st.ci.Pos()), "the store key of the lookup is built from the name "+sp.Name()+" itself", "in "+shortFn(G)+" the store key read at "+cx.P.Pos(st.ci.Pos())+" depends on the name "+sp.Name()+" only through a computation on it (parsed and rebuilt), not on the string itself: different names resolve to the same record (\"abc-1\" and \"lpt-1\"), and a caller that goes on using the name it passed acts on another object than the one returned")
+		}
+	}
+	return n
+}
